@@ -25,7 +25,7 @@ Separate Extraction
   Writer.write_table Writer.norm_log Writer.w_new Writer.w_add_ref Writer.w_add_log Writer.w_close Writer.set_limits
   Compact.merged_refs Compact.merged_logs Compact.merged_refs_for Compact.new_merged_ok
   Compact.compact_range Compact.compact_table Compact.stack_refs Compact.stack_logs Compact.keep_log
-  StackSeq.stack_add StackSeq.stack_compact StackSeq.stack_compact_all StackSeq.stack_auto StackSeq.decode_table
+  StackSeq.stack_add StackSeq.stack_addition StackSeq.stack_compact StackSeq.stack_compact_all StackSeq.stack_auto StackSeq.decode_table
   Overlay.merge2 Overlay.live
   SpecDecoder.spec_decode
   StackProto.trace_of
